@@ -1558,7 +1558,9 @@ find_eol_char(char *s, size_t len)
 	char *s_end, *cr, *lf;
 	s_end = s+len;
 	while (s < s_end) {
-		size_t chunk = (s + CHUNK_SZ < s_end) ? CHUNK_SZ : (s_end - s);
+		/* compare lengths, not pointers: s + CHUNK_SZ may lie beyond the
+		 * end of the object, which is undefined pointer arithmetic */
+		size_t chunk = ((size_t)(s_end - s) > CHUNK_SZ) ? CHUNK_SZ : (size_t)(s_end - s);
 		cr = memchr(s, '\r', chunk);
 		lf = memchr(s, '\n', chunk);
 		if (cr) {
@@ -1568,7 +1570,7 @@ find_eol_char(char *s, size_t len)
 		} else if (lf) {
 			return lf;
 		}
-		s += CHUNK_SZ;
+		s += chunk;
 	}
 
 	return NULL;
